@@ -96,6 +96,9 @@ pub struct Shared {
     pub proj_mask: Cell<u64>,
     /// C18: some instance returned two models with the same projection
     pub repeated_candidate: Cell<bool>,
+    /// resolve the model choice by forking on each satisfying assignment (for CBMC's path-wise symbolic execution)
+    /// instead of one constrained symbolic value (for merged bounded model checking)
+    pub fork_models: Cell<bool>,
 }
 
 pub struct Oracle<const WORDS: usize> {
@@ -189,7 +192,24 @@ impl<const WORDS: usize> SatSolver for Oracle<WORDS> {
         }
         sh.sat_answers.set(sh.sat_answers.get() + 1);
         // the table is a cylinder over the variables above `nv`: a satisfying point below 2^nv exists
-        let chosen = nd::satisfying(1u32 << self.nv, |b| Self::holds(&t, b));
+        let chosen = if sh.fork_models.get() {
+            // path mode: one fork per satisfying assignment, the rest of the path is concrete
+            let mut c = 0u32;
+            let mut found = false;
+            let mut b = 0u32;
+            while b < (1u32 << self.nv) {
+                if !found && Self::holds(&t, b) {
+                    c = b; // the last satisfying assignment is taken if none was picked before
+                    if nd::bool_() {
+                        found = true;
+                    }
+                }
+                b += 1;
+            }
+            c
+        } else {
+            nd::satisfying(1u32 << self.nv, |b| Self::holds(&t, b))
+        };
         let pm = sh.proj_mask.get();
         if pm != 0 {
             let proj = pext(chosen as u64, pm);
